@@ -145,7 +145,8 @@ def main():
             sd = os.path.join(VERIF, "seeded")
             for sid in sorted(os.listdir(sd)):
                 meta = json.load(open(os.path.join(sd, sid, "meta.json")))
-                jobs.append(("seeded_" + sid, meta["breaks_property"], 1, ("patch", os.path.join(sd, sid, "patch.diff"))))
+                jobs.append(("seeded_" + sid, meta.get("check_with", meta["breaks_property"]), 1,
+                             ("patch", os.path.join(sd, sid, "patch.diff"))))
         for name, check, expect, (kind, payload) in jobs:
             if args.only and args.only not in name:
                 continue
